@@ -1,14 +1,16 @@
 #!/bin/bash
-# mutall.sh [tier] : the whole calibration matrix: every mutations/<ID>-*.diff against check <ID> (quick by default).
-# Writes mutations/RESULTS.tsv (mutation, property, exit code, first signature). /repo is never touched (overlay).
-TIER=${1:-quick}
-OUT=/verif/mutations/RESULTS.tsv
-: > $OUT.tmp
+# mutall.sh [tier] [id-regex] : the calibration matrix: every mutations/<ID>-*.diff against check <ID> (quick by default).
+# Writes mutations/RESULTS.part-<pid>.tsv (mutation, property, exit code, first signature); /repo is never touched (overlay).
+# Several streams can run side by side; merge with: cat mutations/RESULTS.part-*.tsv | sort > mutations/RESULTS.tsv
+TIER=${1:-quick}; RE=${2:-.}
+OUT=/verif/mutations/RESULTS.part-$$.tsv
+: > $OUT
 for m in /verif/mutations/C*.diff; do
   b=$(basename $m .diff); ID=${b%%-*}
+  echo "$ID" | grep -Eq "$RE" || continue
   r=$(/verif/tools/mutate.sh $m $ID $TIER 2>&1)
   rc=$(echo "$r" | grep -o "^exit=[0-9]*" | cut -d= -f2)
   sig=$(echo "$r" | grep -m1 "signature:" | sed 's/^ *signature: //' | cut -c1-100)
-  printf "%s\t%s\t%s\t%s\n" "$b" "$ID" "$rc" "$sig" >> $OUT.tmp
+  printf "%s\t%s\t%s\t%s\n" "$b" "$ID" "$rc" "$sig" >> $OUT
 done
-mv $OUT.tmp $OUT
+touch $OUT.done
